@@ -183,6 +183,9 @@ theorem update_spec {syms : List SymbolInfo} {c c' : Ctx} {n : Nat} (h : c.updat
       cases h
       exact ⟨rfl, rfl, rfl, rfl, rfl, rfl, s0, hs, by omega, Or.inl hs⟩
 
+theorem hasMore_iff' (c : Ctx) : c.hasMore = true ↔ c.pos < c.total := by simp [Ctx.hasMore]
+theorem hasMore_false_iff' (c : Ctx) : c.hasMore = false ↔ ¬ c.pos < c.total := by simp [Ctx.hasMore]
+
 theorem cur_spec {c : Ctx} {ch : Nat} (h : c.cur = .ok ch) : c.msg[c.pos]? = some ch ∧ c.pos < c.msg.length := by
   unfold Ctx.cur at h
   split at h
@@ -193,6 +196,13 @@ theorem cur_spec {c : Ctx} {ch : Nat} (h : c.cur = .ok ch) : c.msg[c.pos]? = som
     · exact hlt
     · rw [List.getElem?_eq_none hge] at hx; cases hx
   · cases h
+
+theorem hasMore_cur' {c : Ctx} (h : c.hasMore = true) : ∃ ch, c.cur = .ok ch ∧ c.msg[c.pos]? = some ch := by
+  have hlt : c.pos < c.msg.length := by
+    have := (hasMore_iff' c).mp h
+    simp only [Ctx.total] at this; omega
+  refine ⟨c.msg[c.pos], ?_, List.getElem?_eq_getElem hlt⟩
+  simp [Ctx.cur, List.getElem?_eq_getElem hlt]
 
 theorem drop_eq_cons_of_getElem? {l : List Nat} {i x : Nat} (h : l[i]? = some x) :
     l.drop i = x :: l.drop (i + 1) := by
@@ -271,6 +281,7 @@ structure Exact (T : Tables) (c : Ctx) (a : Acc) : Prop where
   dec : decLoop T c.cw 0 false 0 {} = .ok a
   text : a.rev.reverse = c.msg.take c.pos
   full : ∃ s, c.sym = some s ∧ s.cap = c.count
+  pend : a.pend = 0
 
 theorem take_add_drop_take (l : List Nat) (i k : Nat) :
     l.take i ++ (l.drop i).take k = l.take (i + k) := by
@@ -363,7 +374,7 @@ theorem b256_step_inv {T : Tables} {syms : List SymbolInfo} {la : LookAhead} {c 
           obtain ⟨hm2, hfull⟩ := hcond
           refine ⟨a.push256All data, Acc.push256All_trailer _ _, by simp [Ctx.writeAll, umsg, hsf1.msg],
             by simp [Ctx.writeAll, ucfg, hsf1.cfg], by simp [Ctx.writeAll, uskip, hsf1.skip], hpos2, hpt2, hnew2,
-            Or.inr ⟨hm2, ⟨?_, htext, s, hs, ?_⟩⟩⟩
+            Or.inr ⟨hm2, ⟨?_, htext, ⟨s, hs, ?_⟩, by rw [Acc.push256All_pend]; exact hLpend⟩⟩⟩
           · have := decodes_b256_toEnd hLdec data hdb
             simpa [Ctx.writeAll, ucw, hcw1, hLcw, hcount2, List.append_assoc] using this
           · have e1 : s.cap = c1.count + data.length + 1 := by rw [hcapeq] at hfull; omega
